@@ -197,7 +197,14 @@ class BaseRequest(MutableMapping[str | RequestKey[Any], Any], HeadersMixin):
             self._cache["url"] = url
             self._cache["host"] = url.host
             self._cache["scheme"] = url.scheme
-            self._rel_url = url.relative()
+            rel_url = url.relative()
+            if not rel_url.raw_path and self._method != "CONNECT":
+                # absolute-form with an empty path is a request for "/"
+                # https://www.rfc-editor.org/rfc/rfc9110#section-4.2.3
+                rel_url = rel_url.with_path(
+                    "/", encoded=True, keep_query=True, keep_fragment=True
+                )
+            self._rel_url = rel_url
         else:
             self._rel_url = url
             if scheme is not None:
@@ -512,7 +519,8 @@ class BaseRequest(MutableMapping[str | RequestKey[Any], Any], HeadersMixin):
                 found = path.find(delimiter, cursor)
                 if found != -1:
                     rel = min(rel, found)
-            return path[rel:]
+            # An empty path is "/", as in the origin-form (and in rel_url).
+            return path[rel:] if path.startswith("/", rel) else "/" + path[rel:]
         return path
 
     @reify
